@@ -31,13 +31,11 @@ pub fn gen_case(property: &str, rng: &mut Rng, tier_thorough: bool) -> Case {
         "C15" => gen::gen_config(rng),
         "C16" => gen::gen_select(rng),
         "C17" => gen::gen_stdin(rng, tier_thorough),
-        "C19" => {
-            if rng.chance(50) {
-                gen::gen_status(rng)
-            } else {
-                gen::gen_write(rng)
-            }
-        }
+        "C19" => match rng.below(10) {
+            0..=1 => gen::gen_c19_canonical(rng),
+            2..=5 => gen::gen_status(rng),
+            _ => gen::gen_write(rng),
+        },
         "C20" => crate::carrier::gen_carrier(rng),
         _ => panic!("unknown property {property}"),
     }
@@ -54,7 +52,6 @@ pub fn execute(bin: &Path, scratch: &Scratch, case: &Case) -> Result<Vec<RunReco
     let mut world = case.world.clone();
     let mut recs = Vec::new();
     for (i, inv) in case.invs.iter().enumerate() {
-        let expected = model::expected(&world, &inv.opts, inv.stdin.as_deref(), &inv.faults);
         let mut run = run_inv(bin, scratch, &world, inv, i == 0)?;
         if let Some(h) = oracle::harness_problem(&run) {
             // infrastructure failures are retried once (a run is a pure function of its plan)
@@ -65,6 +62,16 @@ pub fn execute(bin: &Path, scratch: &Scratch, case: &Case) -> Result<Vec<RunReco
                 return Err(format!("{h} / retry: {h2}"));
             }
         }
+        // The model is told about the faults that actually fired, not the ones planned: an
+        // implementation that reaches a file through another API than the shadowed one never
+        // meets the fault, and must not be blamed for not failing.
+        let effective: Vec<simplan::Fault> = inv
+            .faults
+            .iter()
+            .filter(|f| run.trace.fired.iter().any(|x| x.site == f.site && x.path == f.path && x.nth == f.nth && x.kind == f.kind))
+            .cloned()
+            .collect();
+        let expected = model::expected(&world, &inv.opts, inv.stdin.as_deref(), &effective);
         let next = world_after(&world, &run);
         recs.push(RunRecord { inv: inv.clone(), world: world.clone(), expected, run });
         world = next;
@@ -117,8 +124,20 @@ pub fn oracles_for(property: &str, recs: &[RunRecord]) -> Vec<Violation> {
         match property {
             "C13" => {
                 out.extend(oracle::no_write_oracle(property, run, i));
-                out.extend(oracle::status_oracle(property, inv, ex, run, i));
-                out.extend(oracle::report_oracle(property, inv, world, ex, run, i));
+                if run.trace.fired.iter().any(|f| f.site == "stdout.write" && f.kind == "EPIPE") {
+                    // a diff could not be delivered: that is an error, whatever else happened
+                    if run.status != 2 {
+                        out.push(Violation {
+                            property: property.into(),
+                            class: format!("status/stdout-error-not-reported/got-{}", run.status),
+                            detail: "stdout write failed (EPIPE) but the exit status is not 2".into(),
+                            inv_index: i,
+                        });
+                    }
+                } else {
+                    out.extend(oracle::status_oracle(property, inv, ex, run, i));
+                    out.extend(oracle::report_oracle(property, inv, world, ex, run, i));
+                }
             }
             "C14" => {
                 if inv.opts.check {
